@@ -1504,7 +1504,13 @@ package larking
 //@   ensures [backend-failure-is-returned-as-it-is C10] at "return outErr" err == outErr
 //@   count pumpwaits `wg.Wait(`
 //@   ensures [backend-failure-does-not-wait-for-the-client C10] at "return outErr" pumpwaits == 0
-//@   assert at "return err" [an-empty-client-stream-is-not-an-error C10] err != io.EOF
+//@   count streams `cc.NewStream(`
+//@   count halfcloses `clientStream.CloseSend(`
+//@   ensures [an-empty-client-stream-is-not-an-error C10] at "return first" !(first == io.EOF && sd.ClientStreams)
+//@   ensures [a-call-refused-before-the-backend-was-asked-is-the-clients-own-failure C10] at "return first" streams == 0 && err == first
+//@   assert atcall `clientStream.CloseSend(` [an-empty-client-stream-reaches-the-backend-as-an-empty-stream C10] streams == 1 && empty
+//@   assert at "if first != nil && !empty {" [empty-means-the-clients-stream-ended-before-its-first-message C10] empty == (first == io.EOF && sd.ClientStreams)
+//@   assert atcall `clientStream.SendMsg(args)` [a-first-message-is-sent-only-when-there-is-one C10] first == nil && !empty
 //@   witness verifWitnessProxyEmptyStream for an-empty-client-stream
 //@   ensures [clean-end-passes-the-trailer-on C10] at "return nil" trailers == 1
 // The unary proxy body: the backend is invoked for the proxied method's own name with the
